@@ -145,7 +145,7 @@ func (fr *frame) run(order []nkey, incoming map[nkey][]edgePayload, rc *runCtx) 
 					c.panicAt(alive, cur)
 				}
 				if vc.catching() == nil && vc.safety {
-					vc.oblige("safety", shortFn(fn)+"#safety:panic", vc.pos(x.Pos()), "explicit panic is unreachable", alive, "false", []string{"C14"})
+					vc.oblige("safety", shortFn(fn)+"#safety:panic", vc.pos(x.Pos()), "explicit panic is unreachable", alive, "false", []string{vc.safetyTag()})
 				}
 				break instrs
 			default:
